@@ -140,6 +140,31 @@ func npmLtPartialPre(r Range, v SemVer) bool {
 	return false
 }
 
+// pre000: the candidate is a prerelease of 0.0.0. The library's minimum version
+// is the unmarked sentinel 0.0.0-0, `<0.0.0-pre` is the empty set, and node drops
+// a desugared `>=0.0.0` comparator from a comparator set.
+func pre000(v SemVer) bool {
+	return v.Major == 0 && v.Minor == 0 && v.Patch == 0 && len(v.Pre) > 0
+}
+
+// gtSuccPre: the candidate is a prerelease of the successor M.m.(p+1) of the
+// full release operand of some `>` comparator: the library reads `>M.m.p` as
+// `>=M.m.(p+1)`, which has no room for M.m.(p+1)-pre.
+func gtSuccPre(r Range, v SemVer) bool {
+	if len(v.Pre) == 0 {
+		return false
+	}
+	for _, a := range r.Alts {
+		for _, c := range a.Comps {
+			p := c.P
+			if c.Op == ">" && !isPartial(p) && len(p.Pre) == 0 && v.Major == p.Nums[0] && v.Minor == p.Nums[1] && v.Patch == p.Nums[2]+1 {
+				return true
+			}
+		}
+	}
+	return false
+}
+
 // cargoPrePartial: a prerelease candidate against a comma list of at least two
 // comparators one of which has a partial operand: the crate evaluates each
 // comparator component-wise on the prerelease (`~1`, `=1`, `<=1.*` never match
@@ -207,8 +232,13 @@ func classesOf(eco, renc, venc string) ([]string, bool) {
 		if !ok1 || !ok2 {
 			return nil, false
 		}
-		if npmLt0Pre(rg) {
+		if npmLt0Pre(rg) && pre000(v) {
 			out = append(out, "F-C03-lt0pre")
+		} else if pre000(v) {
+			out = append(out, "F-C03-pre000")
+		}
+		if gtSuccPre(rg, v) {
+			out = append(out, "F-C03-gt-succ-pre")
 		}
 		if npmHyphenBelow(rg, true) {
 			out = append(out, "F-C03-hyphen-wild")
@@ -231,8 +261,13 @@ func classesOf(eco, renc, venc string) ([]string, bool) {
 		if !ok1 || !ok2 {
 			return nil, false
 		}
-		if npmLt0Pre(rg) {
+		if npmLt0Pre(rg) && pre000(v) {
 			out = append(out, "F-C03-lt0pre")
+		} else if pre000(v) {
+			out = append(out, "F-C03-pre000")
+		}
+		if gtSuccPre(rg, v) {
+			out = append(out, "F-C03-gt-succ-pre")
 		}
 		if cargoPrePartial(rg, v) {
 			out = append(out, "F-C03-cargo-pre-partial")
